@@ -157,7 +157,7 @@ def run(ctx):
     # ------------------------------------------------------------------ B: generated exact obligations
     obl = json.loads((ctx.gen_dir / "obligations.json").read_text())
     lem = [(o["name"], o["stmt"], "vm_compute. reflexivity.") for o in obl]
-    failed = ctx.coq_obligations("templates", HEADER, lem, chunk=8, timeout=1500, par=16)
+    failed = ctx.coq_obligations("templates", HEADER, lem, chunk=10, timeout=1500, par=16)
     ph["coq_obligations"] = round(time.time() - t0, 1)
     by_name = {o["name"]: o for o in obl}
     for name, detail in failed:
